@@ -132,6 +132,10 @@ def run(ctx):
         for mode in (0, 1):
             scen.append({"id": "zerosmall%d-m%d" % (k, mode), "kind": "session", "seed": seed, "seedkind": "zero", "biased": False, "smode": mode, "cmode": mode,
                          "writes": [{"side": "sc"[j % 2], "n": [1, 100, 1427, 1428, 50, 2855, 700][j % 7]} for j in range(60 if quick else 120)]})
+    # the bridge speaks first: response + seed frame + data frames in ONE segment; the client must hold the bridge's table
+    for i, seed in enumerate(find_seeds(ctx, binary, "any", 6 if quick else 40, (ctx.seed % 1000) * 1000 + 700)):
+        scen.append({"id": "coalesce%d" % i, "kind": "session", "seed": seed, "seedkind": "any", "biased": bool(i % 2), "smode": 0, "cmode": i % 2, "coalesce": True,
+                     "writes": [{"side": "c", "n": n} for n in (1, 100, 1427, 1428)] + [{"side": "s", "n": 50}]})
     for i in range(6 if quick else 40):
         scen.append({"id": "seedinject%d" % i, "kind": "seedinject", "seed": find_seeds(ctx, binary, "any", 1, 777 + i * 13 + ctx.seed)[0], "biased": bool(i % 2),
                      "smode": i % 3, "cmode": 0, "writes": [{"side": "s", "n": n} for n in (1, 1427, 1428, 100, 2855)]})
